@@ -15,6 +15,7 @@
 -/
 import Nexus.Client.Rendezvous
 import Nexus.Client.Invoke
+import Nexus.Client.Progressive
 
 namespace Nexus.Client.Sim
 open Nexus.Gen Nexus.Client
@@ -24,12 +25,14 @@ structure Behav where
   res : String := ""
   waitCtx : Bool := false
   onCancel : String := N.ErrCanceled
+  progress : Nat := 0           -- SendProgress calls the handler makes when it starts
   deriving Repr, Inhabited
 
 inductive UEv where
   | eventReturn
   | progReturn (g : Nat)
   | handlerReturn (w : Nat) (r : I.HRes)
+  | pull (g : Nat) (kind : String)     -- the scripted `sendProg` of progressive call g returns
   deriving Repr, Inhabited
 
 structure Policy where
@@ -37,8 +40,9 @@ structure Policy where
   timersFirst : Bool := true    -- a timer due at the instant of a stimulus fires before it
   wedge : Bool := false         -- … and the goroutine it woke has not run yet when the stimulus lands
   exitFirst : Bool := false     -- a select with Done / ctx.Done ready next to work takes the exit
-  swapExits : Bool := false     -- a worker's select with both its context and the client's Done ready takes
-                                -- the other of the two (Done before the context, or the context before Done)
+  swapExits : Bool := false     -- the other tie-breaks: a worker's select with both its context and the client's
+                                -- Done ready takes the other of the two; SendProgress with its context ended
+                                -- takes ctx.Done; of two timers due at the same instant the later-armed fires first
   apiLast : Bool := false       -- an API goroutine woken by a reply runs only after the receive loop, the
                                 -- workers and the application code returning at this instant have run
   deriving Repr, Inhabited
@@ -46,6 +50,7 @@ structure Policy where
 structure Cfg where
   r : R.Cfg := {}
   i : I.Cfg := {}
+  p : P.Cfg := {}
   eventDelay : Nat := 0
   progDelay : Nat := 0
   behav : List (String × Behav) := []
@@ -54,12 +59,17 @@ structure Cfg where
 inductive Obs where
   | r (o : R.Out)
   | i (o : I.Out)
+  | p (o : P.Out)
   | crashed (site : String)
   | rejected (what : String)
   deriving Repr, Inhabited
 
 inductive Stim where
   | api (g : Nat) (op : R.OpKind) (name : String) (prog : Bool)
+  /-- `CallProgressive` with a scripted `sendProg`: the first chunk at once (`progress: true` iff the
+      script is not empty), then one script step per further call: (delay ms, chunk | final | err | ctx);
+      `ctx` = wait for the caller's context to end and return its error. -/
+  | apiProg (g : Nat) (name : String) (prog : Bool) (script : List (Nat × String))
   | router (m : RMsg)
   | rclose
   | cancel (g : Nat) (k : R.CtxKind)
@@ -69,6 +79,11 @@ inductive Stim where
 structure S where
   r : R.State := {}
   i : I.State := {}
+  p : P.State := {}
+  scripts : List (Nat × List (Nat × String)) := []   -- what is left of each sender's script
+  pwait : List Nat := []                             -- senders whose `sendProg` waits for the context
+  ctxEnded : List Nat := []                          -- calls whose context has ended (also after they returned)
+  spTodo : List (Nat × Nat) := []                    -- handlers that still have SendProgress calls to make
   gs : List Nat := []
   timers : List (Nat × UEv) := []
   waitCtx : List (Nat × String) := []
@@ -76,7 +91,7 @@ structure S where
   handed : Bool := false
   log : List (Nat × Obs) := []      -- newest first
 
-def S.crashed (s : S) : Bool := s.r.crashed.isSome || s.i.crashed.isSome
+def S.crashed (s : S) : Bool := s.r.crashed.isSome || s.i.crashed.isSome || s.p.crashed.isSome
 
 def behavOf (cfg : Cfg) (s : S) (reg : Nat) : Behav :=
   match s.r.procReg.find? (fun p => p.2 == reg) with
@@ -90,7 +105,8 @@ def behavOf (cfg : Cfg) (s : S) (reg : Nat) : Behav :=
 def harvestR (cfg : Cfg) (s : S) (r' : R.State) : S :=
   let new := r'.out.take (r'.out.length - s.r.out.length)
   let now := r'.now
-  let s := { s with r := r', log := new.map (fun o => (now, Obs.r o)) ++ s.log }
+  let s := { s with r := r', p := { s.p with sendClosed := r'.sendClosed },
+                    log := new.map (fun o => (now, Obs.r o)) ++ s.log }
   let s := new.foldr (fun o (s : S) =>
     match o with
     | .eventStart .. => { s with timers := s.timers ++ [(now + cfg.eventDelay, .eventReturn)] }
@@ -115,7 +131,8 @@ def harvestI (cfg : Cfg) (s : S) (i' : I.State) : S :=
     | .created w _ reg => { s with wbehav := (w, behavOf cfg s0 reg) :: s.wbehav }
     | .handlerStart w _ =>
       let b := match s.wbehav.find? (fun p => p.1 == w) with | some (_, b) => b | none => {}
-      let s := { s with timers := s.timers ++ [(now + b.delay, .handlerReturn w { err := b.res })] }
+      let s := { s with timers := s.timers ++ [(now + b.delay, UEv.handlerReturn w { err := b.res })] }
+      let s := { s with spTodo := if b.progress > 0 then s.spTodo ++ [(w, b.progress)] else s.spTodo }
       if b.waitCtx then { s with waitCtx := (w, b.onCancel) :: s.waitCtx } else s
     | _ => s) s
   match i'.crashed with
@@ -127,6 +144,38 @@ def rStep (cfg : Cfg) (s : S) (ev : R.Ev) : Option S :=
 
 def iStep (cfg : Cfg) (s : S) (ev : I.Ev) : Option S :=
   (I.step cfg.i s.i ev).map (harvestI cfg s)
+
+def pStep (cfg : Cfg) (s : S) (ev : P.Ev) : Option S :=
+  (P.step cfg.p s.p ev).map fun p' =>
+    let new := p'.out.take (p'.out.length - s.p.out.length)
+    let now := s.r.now
+    let s := { s with p := p', log := new.map (fun o => (now, Obs.p o)) ++ s.log }
+    match p'.crashed with
+    | some site => { s with log := (now, .crashed site) :: s.log }
+    | none => s
+
+/-- The sender of call g calls `sendProg` again: take the next step of its script. -/
+def startPull (s : S) (g : Nat) : S :=
+  let rest := match s.scripts.find? (fun p => p.1 == g) with | some (_, l) => l | none => []
+  let others := s.scripts.filter (fun p => p.1 != g)
+  match rest with
+  | [] => { s with timers := s.timers ++ [(s.r.now, .pull g "final")] }
+  | (d, k) :: tl =>
+    let s := { s with scripts := (g, tl) :: others }
+    if k == "ctx" then { s with pwait := g :: s.pwait }
+    else { s with timers := s.timers ++ [(s.r.now + d, .pull g k)] }
+
+/-- One step of a sender goroutine: a send completes (and `sendProg` is called again), or a
+    `sendProg` waiting for the context sees it ended. -/
+def senderStep (cfg : Cfg) (s : S) : Option S :=
+  match s.pwait.find? (fun g => s.ctxEnded.contains g) with
+  | some g => (pStep cfg { s with pwait := s.pwait.filter (· != g) } (.pulled g (.err true)))
+  | none =>
+    s.gs.reverse.findSome? fun g =>
+      (pStep cfg s (.sendDone g)).map fun s' =>
+        match (s'.p.ss g).phase with
+        | .pulling => startPull s' g
+        | _ => s'
 
 def firstSome {α β} (xs : List α) (f : α → Option β) : Option β :=
   match xs with
@@ -172,6 +221,9 @@ def fire (cfg : Cfg) (s : S) (d : Due) : S :=
     | .handlerReturn w r =>
       let s := { s with waitCtx := s.waitCtx.filter (fun p => p.1 != w) }
       (iStep cfg s (.handlerReturn w r false)).getD s
+    | .pull g kind =>
+      let p : P.Pull := if kind == "chunk" then .chunk true else if kind == "err" then .err false else .chunk false
+      (pStep cfg s (.pulled g p)).getD s
 
 /-- Application code (scripted) whose return is due now. -/
 def dueNow (s : S) : Option (Nat × UEv) :=
@@ -213,12 +265,31 @@ def internal (cfg : Cfg) (s : S) : Option S :=
   match wc with
   | some s => some s
   | none =>
+  -- a handler making its SendProgress calls (it makes them when it starts, before anything else)
+  let sp : Option S :=
+    match s.spTodo with
+    | [] => none
+    | (w, k) :: rest =>
+      let s1 := { s with spTodo := if k ≤ 1 then rest else (w, k - 1) :: rest }
+      match iStep cfg s1 (.spCheck w) with
+      | none => some s1
+      | some s2 =>
+        if (s2.i.ws w).spArmed then
+          let ev : I.Ev := if (s2.i.ws w).ctx.isSome && (cfg.policy.exitFirst || cfg.policy.swapExits) then .spAbandon w else .spSend w
+          some ((iStep cfg s2 ev).getD s2)
+        else some s2
+  match sp with
+  | some s => some s
+  | none =>
   let rEvs := if cfg.policy.apiLast then runEvs
     else if cfg.policy.runFirst then runEvs ++ waiterEvs cfg s else waiterEvs cfg s ++ runEvs
   match firstSome (rEvs ++ [.closeSeeDone]) (rStep cfg s) with
   | some s => some s
   | none =>
   match firstSome (workerEvs cfg s) (iStep cfg s) with
+  | some s => some s
+  | none =>
+  match senderStep cfg s with
   | some s => some s
   | none =>
   let late : Option S :=
@@ -257,12 +328,12 @@ def dues (s : S) : List (Nat × Due) :=
   let us := (List.range s.timers.length).zip s.timers |>.map fun (k, (t, e)) => (t, Due.u k e)
   us ++ ws ++ inv ++ cl
 
-def earliest : List (Nat × Due) → Option (Nat × Due)
+def earliest (late : Bool := false) : List (Nat × Due) → Option (Nat × Due)
   | [] => none
   | x :: rest =>
-    match earliest rest with
+    match earliest late rest with
     | none => some x
-    | some y => if y.1 < x.1 then some y else some x
+    | some y => if y.1 < x.1 || (late && y.1 == x.1) then some y else some x
 
 def tickTo (cfg : Cfg) (s : S) (t : Nat) : S :=
   if t ≤ s.r.now then s else
@@ -277,7 +348,7 @@ def advance (cfg : Cfg) (s : S) (t : Nat) (incl : Bool) : Nat → S
   | 0 => s
   | n + 1 =>
     if s.crashed then s else
-    match earliest (dues s) with
+    match earliest cfg.policy.swapExits (dues s) with
     | some (d, due) =>
       if d < t || (incl && d ≤ t) then
         let s := tickTo cfg s d
@@ -294,9 +365,26 @@ def applyStim (cfg : Cfg) (s : S) (st : Stim) : S :=
     | none => { s with log := (s.r.now, .rejected what) :: s.log }
   match st with
   | .api g op name prog => attempt (.apiStart g op name prog) "api" { s with gs := g :: s.gs }
+  | .apiProg g name prog script =>
+    let s := attempt (.apiStart g .call name prog) "api" { s with gs := g :: s.gs }
+    match (s.r.ws g).phase with
+    | .pending =>
+      -- the CALL that went out is the first chunk of a progressive call
+      let id := (s.r.ws g).req
+      let more := !script.isEmpty
+      let s := { s with log := s.log.map fun (t, o) =>
+        match o with
+        | .r (.send (.call q nm rp)) => if q == id then (t, Obs.r (.send (.callChunk q nm rp more))) else (t, o)
+        | _ => (t, o) }
+      if more then
+        match pStep cfg s (.spawn g id name prog) with
+        | some s => startPull { s with scripts := (g, script) :: s.scripts } g
+        | none => s
+      else s
+    | _ => s
   | .router m => attempt (.inject m) "router" s
   | .rclose => attempt .injectClose "rclose" s
-  | .cancel g k => (rStep cfg s (.ctxEnd g k)).getD s      -- a context ending after its call returned: nothing happens
+  | .cancel g k => (rStep cfg { s with ctxEnded := g :: s.ctxEnded } (.ctxEnd g k)).getD { s with ctxEnded := g :: s.ctxEnded }      -- a context ending after its call returned: nothing happens
   | .close => attempt .closeStart "close" s
 
 /-- Process one stimulus at absolute time `t`. `hold`: another stimulus follows at the same
